@@ -423,12 +423,14 @@ def eval_c15(ctx, tr):
 
 # ------------------------------------------------------------------ C07
 def eval_c07(ctx, tr, finished):
-    fw = getattr(ctx, 'forwards', [])
+    fw_all = getattr(ctx, 'forwards', [])
     evs = ctx.events
     for lab, fd in tr.firstD.items():
         first_dr = next((d for d in tr.DR if d.ev == lab), None)
         if first_dr is None:
             continue
+        # (src, dst) forwards everything; (src, dst, class name) only events of that class
+        fw = [(f[0], f[1]) for f in fw_all if len(f) == 2 or (lab in evs and type(evs[lab]).__name__ == f[2])]
         entry = first_dr.bus
         reach, todo = [entry], [entry]
         while todo:
